@@ -81,9 +81,7 @@ class C15(DiffProperty):
                "uintptr_t is 64 bit (checked by the harness at run time; the model's modulus is 2^64)",
                "the element-wise copy loop with undo of ORefCopy is the harness' own (the traits contract), not library code",
                "c15_cxx.cpp reads the private counter member of metatype::generic by compiling meta.h with private/protected "
-               "redefined to public (no layout change with g++); while metatype::generic::unref() releases a malloc() block with "
-               "`delete this` (KNOWN-FINDING generic_delete_mismatch, reported by a probe on every run) family g runs with ASan's "
-               "alloc_dealloc_mismatch check off, otherwise under the full sanitizer options"]
+               "redefined to public (no layout change with g++)"]
     level_text = ("proof: Coq theorems (coq/C15/Properties.v) state for the transcribed mechanism, for EVERY history of the 26 handle "
                   "operations from the empty state (induction over the operation list, no bound on length, objects or counter "
                   "values) and all 15 object kinds: REFINEMENT of the counter-free handle-multiset specification (RefcountSpec.v: "
@@ -123,27 +121,10 @@ class C15(DiffProperty):
                  "every history, invariant counter = handle multiset + differential correspondence check")
     assumptions = ["malloc succeeds", "single thread", "uintptr_t has 64 bits"]
 
-    # family g (metatype::generic): while the class releases a malloc() block with `delete this`
-    # (docs/C15_generic_delete.diff) probe() reports that as KNOWN-FINDING on every run and switches ASan's
-    # allocator-family check off for family g only; once repaired the family runs under the full harness_env
+    # family g (metatype::generic) runs under the full sanitizer options like every other family: the allocator
+    # mismatch of metatype::generic::unref() was repaired in /repo (fix e591081, known_findings.json kind "fixed");
+    # if it returns, ASan's alloc-dealloc-mismatch makes the g cases fail and the check reports a VIOLATION
     generic_env = harness_env
-
-    def probe(self):
-        import tempfile
-        try:
-            hx = build_harness("c15_cxx.cpp", ["mpt++", "mptcore"])
-        except Exception:
-            return      # reported by evaluate()
-        wd = tempfile.mkdtemp(prefix="c15probe_")
-        o, _ = run_cases(hx, ["p0 q"], wd, "probe", env=self.harness_env)
-        tok = o.get("I", {}).get("p0")
-        if tok != ["D"]:
-            self.generic_env = dict(self.harness_env,
-                                    ASAN_OPTIONS=self.harness_env["ASAN_OPTIONS"] + ":alloc_dealloc_mismatch=0")
-            print("KNOWN-FINDING: property=C15 generic_delete_mismatch mpt++/metatype_generic.cpp: metatype::generic::unref() "
-                  "releases the malloc() block of create() with `delete this` (ASan alloc-dealloc-mismatch, observed %s); "
-                  "family g therefore runs with alloc_dealloc_mismatch=0; proposed patch docs/C15_generic_delete.diff; "
-                  "replay: g xgen 12 xdrop 12" % (tok,))
 
     # ---- two harnesses: C (families c, r) and C++ (families x, y, g)
     def evaluate(self, cases, workdir, tagsuffix=""):
